@@ -178,20 +178,29 @@ CLAIMED = {
         technique='Lean 4 proof (program-over-calls model, arbitrary results) + helper-recorded exec observations on the real binary'),
     'C14': dict(
         text='Machine-checked: the lexer model (Model/Lex.lean, a transcription of yylex1/yypeek) returns a suffix of its input and every '
-             'token but end-of-input consumes at least one byte, for every byte string and mode (C14_lexer_total: the token stream of any '
-             'file is finite); every keyword of the regenerated table, every printable string and every age literal reads back as the token '
-             'it was printed from, and literals >= 2^32 are diagnosed (C14_tokens_read_back, C14_int_literals); a rejected configuration '
-             'makes the run an error whose only calls are fopen/fclose of the configuration file, under every fault plan '
-             '(C14_reject_whole). Tied to the code: the real yylex is traced token by token while the real LALR parser drives it and '
-             'compared with the model on grammar-generated, edited and mutated files; grammar-generated configurations are accepted by the '
-             'real binary; a 33-class catalogue of invalidating edits applied at every applicable position must give exit 1/75, a '
-             '"file:line:" diagnostic, an unchanged populated maildir and no opened maildir (trace); a termination sweep over mutated byte '
-             'strings with a time limit under ASan/UBSan.',
-        note='The LALR automaton generated by yacc and the semantic validation (expr_validate, macros_validate) are not modelled: acceptance '
-             'and rejection of whole files are decided on the real binary by the check; the theorem about rejection is about main() given the '
-             'parser\'s verdict. A NUL byte in the file is end-of-input for the parser (observed and modelled).',
-        technique='Lean 4 proof (lexer progress/termination and read-back; reject-as-a-whole of main) + token-level differential execution of '
-                  'the real lexer + edit catalogue and termination sweep on the real binary'),
+             'token but end-of-input consumes at least one byte (C14_lexer_total), reads back keywords, strings and age literals and '
+             'diagnoses literals >= 2^32 (C14_tokens_read_back, C14_int_literals); the parser model (Model/Conf.lean: the grammar of parse.y '
+             'with its semantic actions and the macro table, reading its lookahead where the bison automaton does) never exhausts its '
+             'recursion budget and calls the lexer at most length+1 times on every byte string (C14_parser_total); every block it accepts '
+             'has the documented shape and satisfies every side condition (C14_accepted_well_formed), so each class of invalidating edit - '
+             'discard/reject combined, age overflow, exec body without stdin, invalid pattern, attachment block with other actions, empty '
+             'blocks, missing action, reject outside stdin, second stdin, undefined / misplaced / unused macro - is rejected wherever it '
+             'occurs (C14_error_classes_tree, _block, C14_error_second_stdin, C14_error_macro_reference, C14_error_macro_unused); every '
+             'configuration of Spec.ConfOK written by Spec.printBlocks is accepted and read back exactly, all nodes on line 1 '
+             '(C14_accepts_grammar_partial; the statement without the string conditions is refuted: C14_accepts_grammar_full_false); a '
+             'rejected configuration makes the run an error whose only calls are fopen/fclose of the configuration file '
+             '(C14_reject_whole). Tied to the code: token-level trace of the real yylex under the real parser; the real bison parser '
+             'against the model on accept/reject, line of the first diagnostic, every tree with ex_lno and the number of yylex calls '
+             '(corner cases, edited, generated, multi-line, token-soup and mutated files, and the written form of every accepted '
+             'configuration); a 33-class catalogue of invalidating edits on the real binary (exit 1/75, file:line diagnostic, populated '
+             'maildir untouched, no maildir opened); a termination sweep.',
+        note='Not modelled: error recovery after the first diagnostic (only "non-zero" and the first line are compared) and the stack '
+             'limit of the generated parser (nesting deeper than 10000 states is rejected with "memory exhausted"). regcomp is an oracle '
+             '(the platform library on both sides of the comparison). A NUL byte in the file is end-of-input for the parser (observed and '
+             'modelled). The theorem about rejection is about main() given the parser\'s verdict.',
+        technique='Lean 4 proof (lexer; parser totality/progress, accepted => well formed, error classes, print/parse round trip; '
+                  'reject-as-a-whole of main) + token-level and parser-level differential execution of the real bison parser + edit '
+                  'catalogue and termination sweep on the real binary'),
     'C15': dict(
         text='Machine-checked: the numeric zone +-hhmm denotes +-(3600 hh + 60 mm) for hh<=23, mm<=59 and nothing else is accepted '
              '(C15_zone_offset, C15_zone_offset_only); the civil-date arithmetic of timegm is the proleptic Gregorian day count for every date '
